@@ -140,7 +140,7 @@ func main() {
 	flag.Parse()
 	logging.SetLevel(logging.LevelNone)
 	rep := hx.NewReport("deadline", *seed)
-	rep.Rule = "histories on a time grid (operations at whole slots, expiries at half slots): 30 named scenarios, then random sequences of SetDeadline/SetReadDeadline/SetWriteDeadline (future, past, zero), small Write/Writev, big Write to a peer that does not read, peer drains, Close; " +
+	rep.Rule = "histories on a time grid (operations at whole slots, expiries at half slots): 32 named scenarios, then random sequences of SetDeadline/SetReadDeadline/SetWriteDeadline (future, past, zero), small Write/Writev, big Write to a peer that does not read, peer drains, Close; " +
 		"http: connect + requests before/after the keep-alive expiry (with and without WriteTimeout); websocket: upgrade with KeepaliveTime 0 / >0, messages and pings; websocket client: Dial with DialTimeout 0 / >0, client KeepaliveTime 0 / >0, then silent / messages and pings from the server / messages to the server; http client: ClientConn with Timeout and IdleConnTimeout 0 / >0, answered requests, idle periods, a request that is never answered; the connection histories rotate over the transports tcp accepted / DialAsyncTimeout / DialAsync / AddConn, unix AddConn, udp DialUDP+AddConn / DialAsync / per-peer server session, with and without traffic (drained to EAGAIN) before the first deadline; non-trivial = at least one deadline is set; distinct = distinct plans"
 
 	var m *hx.Model
